@@ -28,6 +28,36 @@ type pkt struct {
 	data []byte
 	ci   gopacket.CaptureInfo
 	opts pcapgo.NgPacketOptions
+	intf *pcapgo.NgInterface // the packet's interface when the file has several sections (else f.intfs[ci.InterfaceIndex])
+}
+
+// intfOf is the description of the interface the packet was written on.
+func (f *file) intfOf(w pkt) (pcapgo.NgInterface, bool) {
+	if w.intf != nil {
+		return *w.intf, true
+	}
+	if w.ci.InterfaceIndex < len(f.intfs) {
+		return f.intfs[w.ci.InterfaceIndex], true
+	}
+	return pcapgo.NgInterface{}, false
+}
+
+// joinNg concatenates complete pcapng files into one file of several sections (what appending a
+// new capture to an existing file produces); interface numbers start again in every section.
+func joinNg(desc string, parts ...*file) *file {
+	f := &file{kind: "pcapng", desc: desc}
+	for _, p := range parts {
+		for i, w := range p.pkts {
+			in := p.intfs[w.ci.InterfaceIndex]
+			w.intf = &in
+			f.pkts = append(f.pkts, w)
+			f.ends = append(f.ends, len(f.bytes)+p.ends[i])
+		}
+		f.bytes = append(f.bytes, p.bytes...)
+		f.intfs, f.sect, f.linkTy = p.intfs, p.sect, p.linkTy // the reader describes the section it is in
+		f.mixed = f.mixed || p.mixed
+	}
+	return f
 }
 
 type file struct {
@@ -76,6 +106,10 @@ func (c *ctx) fail(key, what string, f *file, extra map[string]any) {
 // ---- writing ----------------------------------------------------------------------
 
 func writePcap(nano bool, pk []pkt, desc string) (*file, error) {
+	return writePcapSnap(nano, pk, desc, 65535)
+}
+
+func writePcapSnap(nano bool, pk []pkt, desc string, snap uint32) (*file, error) {
 	var b bytes.Buffer
 	var w *pcapgo.Writer
 	f := &file{kind: "pcap-micro", desc: desc, pkts: pk, linkTy: layers.LinkTypeEthernet}
@@ -85,7 +119,7 @@ func writePcap(nano bool, pk []pkt, desc string) (*file, error) {
 	} else {
 		w = pcapgo.NewWriter(&b)
 	}
-	if err := w.WriteFileHeader(65535, layers.LinkTypeEthernet); err != nil {
+	if err := w.WriteFileHeader(snap, layers.LinkTypeEthernet); err != nil {
 		return nil, err
 	}
 	for _, p := range pk {
@@ -261,9 +295,10 @@ func (c *ctx) comparePacket(f *file, i int, g got, withOpts bool, how string) bo
 	if f.kind == "pcap-micro" {
 		wantTS = wantTS.Truncate(time.Microsecond)
 	}
-	if f.kind == "pcapng" && !g.ci.Timestamp.Equal(wantTS) && w.ci.InterfaceIndex < len(f.intfs) && f.intfs[w.ci.InterfaceIndex].TimestampOffset != 0 &&
-		g.ci.Timestamp.Sub(wantTS) == time.Duration(f.intfs[w.ci.InterfaceIndex].TimestampOffset)*time.Second {
-		c.fail("roundtrip|timestamp-shifted-by-if_tsoffset", fmt.Sprintf("packet %d: written %v, read back %v: the writer announces if_tsoffset=%d but does not take it off the timestamps it writes, the reader adds it (%s)", i, wantTS.UTC(), g.ci.Timestamp.UTC(), f.intfs[w.ci.InterfaceIndex].TimestampOffset, how), f, ex)
+	win, haveIn := f.intfOf(w)
+	if f.kind == "pcapng" && !g.ci.Timestamp.Equal(wantTS) && haveIn && win.TimestampOffset != 0 &&
+		g.ci.Timestamp.Sub(wantTS) == time.Duration(win.TimestampOffset)*time.Second {
+		c.fail("roundtrip|timestamp-shifted-by-if_tsoffset", fmt.Sprintf("packet %d: written %v, read back %v: the writer announces if_tsoffset=%d but does not take it off the timestamps it writes, the reader adds it (%s)", i, wantTS.UTC(), g.ci.Timestamp.UTC(), win.TimestampOffset, how), f, ex)
 		return true // the rest of the packet is still compared by the other reads
 	}
 	if !g.ci.Timestamp.Equal(wantTS) {
@@ -276,8 +311,8 @@ func (c *ctx) comparePacket(f *file, i int, g got, withOpts bool, how string) bo
 			return false
 		}
 		if f.mixed {
-			if len(g.ci.AncillaryData) != 1 || g.ci.AncillaryData[0] != f.intfs[w.ci.InterfaceIndex].LinkType {
-				c.fail("roundtrip|link-type-differs", fmt.Sprintf("packet %d: ancillary link type %v, interface has %v (%s)", i, g.ci.AncillaryData, f.intfs[w.ci.InterfaceIndex].LinkType, how), f, ex)
+			if len(g.ci.AncillaryData) != 1 || g.ci.AncillaryData[0] != win.LinkType {
+				c.fail("roundtrip|link-type-differs", fmt.Sprintf("packet %d: ancillary link type %v, interface has %v (%s)", i, g.ci.AncillaryData, win.LinkType, how), f, ex)
 				return false
 			}
 		}
@@ -441,9 +476,9 @@ func (c *ctx) libpcap(f *file) {
 		if f.kind == "pcap-micro" {
 			ts = ts.Truncate(time.Microsecond)
 		}
-		if f.kind == "pcapng" && w.ci.InterfaceIndex < len(f.intfs) && f.intfs[w.ci.InterfaceIndex].TimestampOffset != 0 &&
-			ci.Timestamp.Truncate(time.Microsecond).Sub(ts.Truncate(time.Microsecond)) == time.Duration(f.intfs[w.ci.InterfaceIndex].TimestampOffset)*time.Second {
-			c.fail("libpcap|timestamp-shifted-by-if_tsoffset", fmt.Sprintf("packet %d: libpcap reads %v, written %v (if_tsoffset=%d announced but not taken off by the writer)", i, ci.Timestamp.UTC(), ts.UTC(), f.intfs[w.ci.InterfaceIndex].TimestampOffset), f, nil)
+		if win, ok := f.intfOf(w); f.kind == "pcapng" && ok && win.TimestampOffset != 0 &&
+			ci.Timestamp.Truncate(time.Microsecond).Sub(ts.Truncate(time.Microsecond)) == time.Duration(win.TimestampOffset)*time.Second {
+			c.fail("libpcap|timestamp-shifted-by-if_tsoffset", fmt.Sprintf("packet %d: libpcap reads %v, written %v (if_tsoffset=%d announced but not taken off by the writer)", i, ci.Timestamp.UTC(), ts.UTC(), win.TimestampOffset), f, nil)
 			continue
 		}
 		if ts.Unix() < 1<<31 && !ci.Timestamp.Equal(ts) && !ci.Timestamp.Equal(ts.Truncate(time.Microsecond)) {
@@ -672,6 +707,85 @@ func main() {
 				add(f, err, !mixed && n < 1500)
 			}
 		}
+	}
+	// F5: packets around and above 64 KiB (the readers grow their buffers in steps) after and before
+	// packets of other sizes, by each writer
+	bigs := []int{100, 1000, 65535, 65536, 65537, 70000, 140000}
+	for kind := 0; kind < 3; kind++ {
+		for _, a := range bigs {
+			for _, b := range bigs {
+				if a < 65535 && b < 65535 {
+					continue
+				}
+				pk := []pkt{{data: payload(a, 3), ci: gopacket.CaptureInfo{Timestamp: stamps[0], CaptureLength: a, Length: a}},
+					{data: payload(b, 5), ci: gopacket.CaptureInfo{Timestamp: stamps[1], CaptureLength: b, Length: b + 1}},
+					{data: payload(100, 7), ci: gopacket.CaptureInfo{Timestamp: stamps[2], CaptureLength: 100, Length: 100}}}
+				desc := fmt.Sprintf("large packets: %s packets=[len %d, len %d, len 100]", [...]string{"pcap micro", "pcap nano", "pcapng"}[kind], a, b)
+				var f *file
+				var err error
+				if kind == 2 {
+					f, err = writeNg([]pcapgo.NgInterface{base14}, sbase14, pk, desc)
+				} else {
+					f, err = writePcapSnap(kind == 1, pk, desc, 262144)
+				}
+				add(f, err, false)
+			}
+		}
+	}
+	// F6: files of several sections (a capture appended to an existing file): every sequence of 2 and
+	// 3 sections out of three kinds that differ in the number of interfaces and their if_tsoffset
+	mkSection := func(kind, pos int) (*file, error) {
+		in0, in1 := base14, base14
+		in1.Name = "second"
+		var ins []pcapgo.NgInterface
+		switch kind {
+		case 0:
+			ins = []pcapgo.NgInterface{in0}
+		case 1:
+			in0.TimestampOffset = 5
+			ins = []pcapgo.NgInterface{in0}
+		case 2:
+			in1.TimestampOffset = 7
+			ins = []pcapgo.NgInterface{in0, in1}
+		}
+		sec := sbase14
+		sec.Comment = fmt.Sprintf("section %d", pos)
+		var pk []pkt
+		for i := range ins {
+			n := 3 + pos + i
+			pk = append(pk, pkt{data: payload(n, byte(16*pos+i)), ci: gopacket.CaptureInfo{Timestamp: stamps[(pos+i)%3], CaptureLength: n, Length: n + 1, InterfaceIndex: len(ins) - 1 - i}})
+		}
+		return writeNg(ins, sec, pk, "")
+	}
+	var secSeqs [][]int
+	for a := 0; a < 3; a++ {
+		for b := 0; b < 3; b++ {
+			secSeqs = append(secSeqs, []int{a, b})
+			for cc := 0; cc < 3; cc++ {
+				secSeqs = append(secSeqs, []int{a, b, cc})
+			}
+		}
+	}
+	for _, sq := range secSeqs {
+		var parts []*file
+		var err error
+		for pos, k := range sq {
+			var p *file
+			if p, err = mkSection(k, pos); err != nil {
+				break
+			}
+			parts = append(parts, p)
+		}
+		if err != nil {
+			add(nil, err, false)
+			continue
+		}
+		names := [...]string{"one interface", "one interface with if_tsoffset 5", "two interfaces, the second with if_tsoffset 7"}
+		d := "sections:"
+		for _, k := range sq {
+			d += " [" + names[k] + "]"
+		}
+		add(joinNg(d, parts...), nil, true)
 	}
 	// run
 	var wg sync.WaitGroup
